@@ -336,10 +336,32 @@ Proof. exact finished_request_not_kept_l. Qed.
    or cancellation) ends at that instant with a plain error: not permanent, no throttle, no remainder, not
    shutdown-classified — it is retried under exactly the conditions of retry_iff, like any transient failure *)
 Theorem context_expiry_is_transient : forall sc s a c,
-  att_done sc s = Some c -> c < s + a_dur a ->
+  a_ignores_ctx a = false -> att_done sc s = Some c -> c < s + a_dur a ->
   effective sc s a = (Z.max c s, RErr EBase) /\ is_permanent EBase = false /\ throttle_of EBase = None /\
   (forall sg, partial_of sg EBase = None) /\ is_shutdown EBase = false.
 Proof. exact context_expiry_is_transient_l. Qed.
+
+(* timeoutSender.Send (and every sender between the retry loop and the exporter function) hands the exporter's
+   answer back UNCHANGED: what the retry loop sees of attempt k is the scripted answer when it arrives in time or
+   when the call ignores its context — in the latter case however late, also after the per-attempt timeout, the
+   deadline or a cancellation ... *)
+Theorem late_answer_is_the_answer : forall sc s a,
+  a_ignores_ctx a = true -> effective sc s a = (s + a_dur a, a_res a).
+Proof. exact late_answer_is_the_answer_l. Qed.
+
+Theorem answer_in_time_is_the_answer : forall sc s a,
+  (forall c, att_done sc s = Some c -> s + a_dur a <= c) -> effective sc s a = (s + a_dur a, a_res a).
+Proof. exact answer_in_time_is_the_answer_l. Qed.
+
+(* ... so a success or a permanent error that arrives after the attempt's context ended is still THE verdict:
+   no further attempt (no duplicate delivery, the permanent classification is not lost) *)
+Theorem late_verdict_is_final : forall sc script k st a,
+  nth_error (steps_of sc script) k = Some st -> nth_error script k = Some a -> a_ignores_ctx a = true ->
+  (a_res a = ROk \/ exists ch, a_res a = RErr ch /\ is_permanent ch = true) ->
+  s_res st = a_res a /\ s_end st = s_start st + a_dur a /\
+  length (steps_of sc script) = S k /\ nth_error (steps_of sc script) (S k) = None.
+Proof. exact late_verdict_is_final_l. Qed.
+
 
 (* ---- the decidable clause checker run by the check over every observed case (C05/Clauses.v) ------------------ *)
 (* what prop_ok = true means, on the timeline reconstructed from the observation (scenario + logged delays):
@@ -433,6 +455,9 @@ Print Assumptions tie_requests_handle_errors.
 Print Assumptions interrupted_request_is_kept.
 Print Assumptions finished_request_not_kept.
 Print Assumptions context_expiry_is_transient.
+Print Assumptions late_answer_is_the_answer.
+Print Assumptions answer_in_time_is_the_answer.
+Print Assumptions late_verdict_is_final.
 Print Assumptions clause_checker_sound.
 Print Assumptions clause_followed_reflects.
 Print Assumptions clause_after_stop_reflects.
